@@ -59,10 +59,26 @@ def gen(tier, rng):
         ks = range(1, len(nal)) if len(nal) <= 60 else sorted(set(rng.randrange(1, len(nal)) for _ in range(40)))
         for k in ks:
             cases.append(line(nal_src(chunkings(rng, nal[:k], 1)[0], False)))
+    # partial views of NALs up to 16 MiB as they arrive through AnnexBReader::accumulate: every incomplete view is a prefix of
+    # the complete NAL (implementation only, judged by big_check)
+    from vlib.annexb_util import big_scripts
+    for sc in big_scripts(rng, tier):
+        if "|" in sc:
+            cases.append("!annexbig A " + sc)
     return cases
 
 
+def extra_check(r):
+    if r["case"].lstrip("!").startswith("annexbig"):
+        from vlib.annexb_util import big_check
+        d = big_check(r["case"], r["dev"])
+        return ("value", d) if d else None
+    return None
+
+
 def key_of(case):
+    if case.startswith("!"):
+        return "big", "", "c", ""
     p = case.split()
     cmd = p[0]
     src = p[1] if cmd in ("sps", "sei") else p[2]
